@@ -599,3 +599,25 @@ addendum('C16', 'R4: constants placed into a container value are those of '
          'R10 memoised functions of smtlib.')
 addendum('C18', 'R2: objects accumulating measured run times are '
          'write-only for the strategies.')
+
+
+# ---- round 8 (DESIGN.md 8.4, "Round 8")
+addendum('C03', 'R11 = membership in a node is membership among its '
+         'children (C12.R7, membership half).')
+addendum('C04', 'R16: no builtin function is used as data where no scope '
+         'binds the name; R17: a manager is not shut down while a module '
+         'global holds its proxy.')
+addendum('C05', 'R12 = the output file is written at the adoption sites '
+         'only (write part of C01.R2).')
+addendum('C10', 'R6: an __exit__ result that is not certainly falsy counts '
+         'as suppressing.')
+addendum('C11', 'R4: an inner node is kept without descent only under '
+         '"leaf", "map empty" or "rebuilt node equals the original".')
+addendum('C12', 'R7 also covers __contains__.')
+addendum('C14', 'R9: every pass list the builder returns is consumed by '
+         'the strategy.')
+addendum('C15', 'R10 = text-carrying part of the pickle format (C12.R1).')
+addendum('C16', 'R4: tables of short FP names used to write out the long '
+         'sort hold the SMT-LIB pairs; R11: numeric-leaf predicates are '
+         'regular expressions rejecting non-numerals (never float()/int()/'
+         'isdigit()).')
